@@ -96,7 +96,11 @@ func genC14(t *rapid.T) CaseC14 {
 	return c
 }
 
-func checkC14(c CaseC14, x *hx.Ctx) *hx.Failure {
+func checkC14(c CaseC14, x *hx.Ctx) *hx.Failure { return c14Core(c, x, nil) }
+
+// c14Core is the C14 oracle; reuse, when not nil, supplies the packet objects
+// to load the input into (a caller that recycles its packet buffers).
+func c14Core(c CaseC14, x *hx.Ctx, reuse func(i int) *packet.Packet) *hx.Failure {
 	m := &c.PMT
 	car := ref.Carrier{Pointer: c.Pointer, Trailing: c.Trailing}
 	payload := car.Payload(m.Section())
@@ -108,7 +112,12 @@ func checkC14(c CaseC14, x *hx.Ctx) *hx.Failure {
 	keep := make([]packet.Packet, len(pkts))
 	for i, p := range pkts {
 		b := packet.Packet(p.MustBytes())
-		in[i] = &b
+		if reuse != nil {
+			in[i] = reuse(i)
+			*in[i] = b
+		} else {
+			in[i] = &b
+		}
 		keep[i] = b
 	}
 	present := map[int]bool{}
@@ -275,6 +284,14 @@ func c14Remove(c CaseC14, payload []byte) *hx.Failure {
 			keepSel[s.PID] = true
 		}
 	}
+	if len(c.Remove)%2 == 1 || c.CC%2 == 0 {
+		// by-PID queries before the removal: whatever they cache must not outlive it
+		for _, s := range c.PMT.Streams {
+			if got := dec.IsPidForStreamWherePresentationLagsEbp(s.PID); got != c20Lag[int(s.StreamType)] {
+				return hx.Failf("lag-query", "IsPidForStreamWherePresentationLagsEbp(%d) = %v for stream_type %#x", s.PID, got, s.StreamType)
+			}
+		}
+	}
 	rmArg := append([]int{}, c.Remove...)
 	dec.RemoveElementaryStreams(rmArg)
 	want := c.PMT.Select(keepSel)
@@ -282,7 +299,15 @@ func c14Remove(c CaseC14, payload []byte) *hx.Failure {
 		f.Key = "remove-" + f.Key
 		return f
 	}
+	for _, s := range want.Streams {
+		if got := dec.IsPidForStreamWherePresentationLagsEbp(s.PID); got != c20Lag[int(s.StreamType)] {
+			return hx.Failf("remove-lag-query", "after RemoveElementaryStreams(%v): IsPidForStreamWherePresentationLagsEbp(%d) = %v for a remaining stream of type %#x", c.Remove, s.PID, got, s.StreamType)
+		}
+	}
 	for _, p := range c.Remove {
+		if dec.IsPidForStreamWherePresentationLagsEbp(p) {
+			return hx.Failf("remove-lag-query", "after RemoveElementaryStreams(%v): the by-PID query still answers true for removed PID %d", c.Remove, p)
+		}
 		if dec.PIDExists(p) {
 			return hx.Failf("remove-pidexists", "PIDExists(%d) is still true after removing it", p)
 		}
